@@ -107,6 +107,54 @@ def q_pop_at(eng, st, fr, t, name, rname, args):
     return fdai.mk_option(q.cells.pop(i).v)
 
 
+def q_drain(eng, st, fr, t, name, rname, args):
+    """container.drain(range): the elements of the range are removed (whether or not the iterator is run to its end) and
+    handed out in order"""
+    from .. import itermodels as IM
+    q = _q(eng, st, args[0])
+    rng = eng.resolve(st, args[1])
+    if q is None or not isinstance(rng, AggV):
+        return NotImplemented
+    kind = str(rng.kind).split("::")[-1]
+    n = len(q.cells)
+
+    def kv(x):
+        x = eng.resolve(st, x)
+        return x.v if isinstance(x, K) and isinstance(x.v, int) and not isinstance(x.v, bool) else None
+    if kind == "RangeFull":
+        lo, hi = 0, n
+    elif kind == "RangeTo":
+        lo, hi = 0, kv(rng.fields.get(0))
+    elif kind == "RangeFrom":
+        lo, hi = kv(rng.fields.get(0)), n
+    elif kind == "Range":
+        lo, hi = kv(rng.fields.get(0)), kv(rng.fields.get(1))
+    elif kind == "RangeToInclusive":
+        hi = kv(rng.fields.get(0))
+        lo, hi = 0, (None if hi is None else hi + 1)
+    else:
+        return NotImplemented
+    if lo is None or hi is None:
+        return NotImplemented
+    _ev(st, fr, t, name, rname, args)
+    if lo > hi or hi > n:
+        return _panic(eng, st, fr, t, name, "drain range out of bounds")
+    taken = [c.v for c in q.cells[lo:hi]]
+    del q.cells[lo:hi]
+    return IM.mk(taken)
+
+
+def q_first_last(which):
+    def m(eng, st, fr, t, name, rname, args):
+        q = _q(eng, st, args[0])
+        if q is None:
+            return NotImplemented
+        if not q.cells:
+            return fdai.mk_option(None)
+        return fdai.mk_option(RefV(q.cells[0 if which == "first" else -1], (), which.endswith("mut")))
+    return m
+
+
 def q_remove(eng, st, fr, t, name, rname, args):
     q = _q(eng, st, args[0])
     i = _idx(eng, st, args[1])
@@ -229,6 +277,7 @@ def container_models():
             pre + "try_push": q_try_push, pre + "push": q_push, pre + "pop": q_pop, pre + "pop_at": q_pop_at, pre + "remove": q_remove,
             pre + "swap_remove": q_swap_remove, pre + "swap_pop": q_swap_pop, pre + "insert": q_insert, pre + "len": q_len, pre + "is_empty": q_is_empty,
             pre + "as_slice": q_as_slice, pre + "as_mut_slice": q_as_slice,
+            pre + "drain": q_drain,
             pre + "is_full": q_is_full, pre + "capacity": q_capacity, pre + "remaining_capacity": q_remaining, pre + "clear": q_clear, pre + "truncate": q_truncate,
         })
     return ms
